@@ -8,4 +8,5 @@ let table : (string * (Model.z list list -> Model.z list list)) list = [
   "subject", Model.subj_run;
   "subjectc", Model.subj_c_run;
   "subjecta", Model.subj_a_run;
+  "observable", Model.obs_run;
 ]
